@@ -22,7 +22,7 @@ def deci(xs: List[int], frac_rng: Optional[random.Random] = None) -> List[int]:
 
 def make_input(rng: random.Random, n_refs: int = 2, n_qry: int = 8, ref_labels=(80, 200), kinds=None,
                decimals: bool = True, repeats: bool = False, lattice: int = 0, small_ids: bool = False,
-               twins: bool = False) -> Dict:
+               twins: bool = False, short_contigs: int = 0) -> Dict:
     """small_ids: references 1..n and queries 1..m (query ids collide with reference ids)
     twins: some maps get a coincident label (two SiteIDs with the same Position: legal CMAP, e.g. two sites closer than
     the 0.1 bp resolution of the file)"""
@@ -173,6 +173,22 @@ def make_input(rng: random.Random, n_refs: int = 2, n_qry: int = 8, ref_labels=(
         dx = deci(coords, rng if decimals else None)
         qrys.append({"id": qid, "len": dx[-1] + rng.choice([1, 10, 3000, 50000]), "x": dx, "kind": kind,
                      "ref": ref["id"], "mirrored": mirrored})
+        qid += 1 if small_ids else rng.randint(1, 9)
+    for k in range(short_contigs):
+        # a contig only a few kb longer than the molecule cut from it (from its first label, one spare label at the
+        # end), the molecule given from its other end: the seeding correlation has a handful of lags and the wrong
+        # strand often has its maximum on the border, where find_peaks reports nothing
+        n = rng.randint(14, 24)
+        xs = gen.make_reference(rng, n, min_gap=2500, mean_gap=9000, lattice=lattice)
+        xs = [v - xs[0] + rng.randint(1400, 4000) for v in xs]
+        dx = deci(xs, rng if decimals else None)
+        rid = max(r["id"] for r in refs) + 2
+        refs.append({"id": rid, "len": dx[-1] + rng.randint(10, 30000), "x": dx, "bp": xs})
+        cut = [v - xs[0] for v in xs[:-1]]
+        coords = gen.mirror_query(cut) if k % 2 == 0 else cut
+        dq = deci(coords, rng if decimals else None)
+        qrys.append({"id": qid, "len": dq[-1] + rng.choice([1, 10]), "x": dq, "kind": "shortcontig", "ref": rid,
+                     "mirrored": k % 2 == 0})
         qid += 1 if small_ids else rng.randint(1, 9)
     if twins:
         for m in refs + qrys:
